@@ -371,6 +371,7 @@ def build(repo=None):
             eng.globals.update({"jtu.tree_flatten": Fn("tree_flatten", model=m_tree_flatten), "jtu.tree_unflatten": Fn("tree_unflatten", model=m_tree_unflatten),
                                 "jtu.tree_structure": Fn("tree_structure", model=m_tree_structure), "jtu.tree_map": Fn("tree_map", model=m_tree_map), "jtu.tree_leaves": Fn("tree_leaves", model=m_tree_leaves)})
             eng.method_models["any()"] = lambda e, s, g, node: [(s, Z("bool", SuffixBad(z3.Const("named_structure_at_suffix", U), the_structure)))]
+            eng.method_models["all()"] = lambda e, s, g, node: [(s, Z("bool", z3.Not(SuffixBad(z3.Const("named_structure_at_suffix", U), the_structure))))]
             eng.attr_models["num_leaves"] = lambda e, s, recv, node: [(s, Z("int", NumLeaves(e.as_u(s, recv))))]
 
             def b_len(e, s, args, kwargs, node):
@@ -573,7 +574,10 @@ def build(repo=None):
             s_ok.ghost["prefix_args"] = s_bad.ghost["prefix_args"] = (StructOf(e.as_u(s, a)), StructOf(e.as_u(s, b)))
             return [(s_ok, Opaque("mapped")), (s_bad, Raised(Exc("ValueError", origin="tree_map")))]
 
-        def m_any(e, s, g, node):
+        def m_all(e, s, g, node):
+            return m_any(e, s, g, node, quantifier="all")
+
+        def m_any(e, s, g, node, quantifier="any"):
             # any(not has_structure(x) for x in <leaves of the tree handed to tree_leaves(.., is_leaf=has_structure)>): the test is about
             # the structure of THAT tree -- it must be the dummy tree rebuilt from the structure this check flattened to
             ns = s.env.get("named_structure")
@@ -586,7 +590,15 @@ def build(repo=None):
                 it_ok = isinstance(itv, Opaque) and itv.tag == "dummy_leaves"
             over = StructOf(st_tree) if (st_tree is not None and it_ok) else z3.FreshConst(U, "structure_of_whatever_is_iterated")
             s1.ghost["suffix_args"] = (e.as_u(s, ns), over) if ns is not None else None
-            return [(s1, Z("bool", SuffixBad(e.as_u(s, ns) if ns is not None else Leaf0, over)))]
+            bad = SuffixBad(e.as_u(s, ns) if ns is not None else Leaf0, over)  # "some leaf of that tree lacks the named structure"
+            negated_elt = isinstance(gn, ast.GeneratorExp) and isinstance(gn.elt, ast.UnaryOp) and isinstance(gn.elt.op, ast.Not)
+            if quantifier == "any" and negated_elt:
+                val = bad  # any(not has_structure(x) ...)
+            elif quantifier == "all" and not negated_elt:
+                val = z3.Not(bad)  # all(has_structure(x) ...)
+            else:
+                val = z3.FreshConst(BOOL, "some_other_question_about_the_leaves")
+            return [(s1, Z("bool", val))]
 
         def m_tree_leaves2(e, s, a, kw, n):
             s1 = s.clone()
@@ -598,6 +610,7 @@ def build(repo=None):
                             "jtu.tree_structure": Fn("tree_structure", model=lambda e, s, a, kw, n: [(s, treedef(StructOf(e.as_u(s, a[0]))))]),
                             "jtu.tree_leaves": Fn("tree_leaves", model=m_tree_leaves2)})
         eng.method_models["any()"] = m_any
+        eng.method_models["all()"] = m_all
         eng.attr_models["num_leaves"] = lambda e, s, recv, node: [(s, Z("int", NumLeaves(e.as_u(s, recv))))]
         eng.globals["len"] = Fn("len", model=lambda e, s, a, kw, n: [(s, Z("int", z3.Int("n_leaves")))] if a and isinstance(a[0], Opaque) else __import__("pyvc.builtins_model", fromlist=["b_len"]).b_len(e, s, a, kw, n))
         eng.method_models["__eq__"] = lambda e, s, a, b: (a.t == b.t) if isinstance(a, Z) and isinstance(b, Z) and a.kind == b.kind == "u" and "treedef" in (a.tag, b.tag) else None
